@@ -76,7 +76,7 @@ def run(tier):
         if shape == "left" and not r.violated:
             vlib.log("[C11] note: the left-join shape no longer diverges in the model")
     per = 3 if tier == "quick" else 16
-    jobs = [(vlib.seed() * 1000 + i, kind) for kind in ("plain", "filter", "expr", "inner") for i in range(per)]
+    jobs = [(vlib.seed() * 1000 + i, kind) for kind in ("plain", "filter", "expr", "inner", "composite", "compjoin") for i in range(per)]
     probes = [(vlib.seed() * 1000 + 900 + i, "left") for i in range(2)] if any(k["id"] == "S5" for k in vlib.open_findings(PID)) else []
 
     def one(job):
@@ -111,7 +111,7 @@ def run(tier):
     cov["evaluations"] = nev
     cov["distinct_nontrivial"] = cov["traces_validated_against_impl"]
     cov["exhaustive"] = False
-    cov["rule"] = "model: all histories of <= 3-4 single-row writes on two tables over 2 ids x {2 values, NULL} with any batching, the upsert (NULL-safe change test) and delete passes of handle_candidates as separate steps, per query shape; binding: seeded histories (local + remote, shuffled) over nullable columns for a plain and a filtered projection, a computed column and an inner join, compared with SQLite's own evaluation after every burst"
+    cov["rule"] = "model: all histories of <= 3-4 single-row writes on two tables over 2 ids x {2 values, NULL} with any batching, the upsert (NULL-safe change test) and delete passes of handle_candidates as separate steps, per query shape; binding: seeded histories (local + remote, shuffled) over nullable columns for a plain and a filtered projection, a computed column, an inner join, a table with a composite (integer, text) key and its join, compared with SQLite's own evaluation after every burst"
     vlib.write_evidence(PID, tier, LEVEL, cov, time.time() - t0, violations=len(violations), assumptions=[
         "LEFT JOIN subscriptions are excluded from judgement (known finding S5) and only probed",
         "keys are >= 1 and non-empty (zero-length packed keys panic in debug builds, see DESIGN.md S10)",
